@@ -74,6 +74,11 @@ def _domains(tier):
     for et in Z.TYPES_2D:
         for poly in polys:
             out.append({"dom": "emb", "src": "gmsh", "elemType": et, "poly": poly})
+    # bodies of size 1e-6 (no absolute length may enter normals, measures or point location)
+    for et in ("TETRA4", "HEXA8", "PRISM6", "PRISM15"):
+        out.append({"dom": "3d", "src": "recon", "elemType": et, "poly": "box", "scale": 1e-6})
+    for et in ("TRI3", "QUAD8"):
+        out.append({"dom": "2d", "src": "gmsh", "elemType": et, "poly": "quad", "scale": 1e-6})
     return out
 
 
@@ -292,6 +297,12 @@ def cases(tier, seed):
     depth = 2 if tier == "quick" else 3
     out = []
     for d in _domains(tier):
+        if d.get("scale"):
+            # micro-scale bodies: identity letters only (a motion by O(1) of a body of size 1e-6 costs 6 digits to round-off alone)
+            for h in [["Q"], ["P"], ["Q", "P"], ["P", "Q"]]:
+                out.append(dict(d, kind="motion", hist=h))
+                out.append(dict(d, kind="motion", hist=h, regime="end"))
+            continue
         for h in _histories(depth):
             c = {"kind": "motion"}
             c.update(d)
@@ -382,6 +393,17 @@ def _letter(name, space):
                 g.Get_GaussCoordinates_e_pg(MatrixType.mass, displacementMatrix=U)
                 if g.dim in (1, 2) and g.dim == m.dim - 1:
                     g.Get_normals_e_pg(MatrixType.mass, displacementMatrix=U)
+                    if m.dim == 2 and not planar:
+                        continue  # (edges of a surface embedded in 3D: their normal is only defined relative to the surface)
+                    # the displaced configuration of a RIGID rotation: the normals are the rotated normals
+                    Rq = Z.rot3([0.0, 0.0, 1.0] if planar else [0.3, -0.5, 1.0], 0.6)
+                    X_ = np.asarray(m.coord, dtype=float)
+                    n0 = np.asarray(g.Get_normals_e_pg(MatrixType.mass), dtype=float)
+                    n1 = np.asarray(g.Get_normals_e_pg(MatrixType.mass, displacementMatrix=X_ @ Rq.T - X_), dtype=float)
+                    err = float(np.abs(n1 - n0 @ Rq.T).max())
+                    if err > 1e-9:
+                        m.__dict__["_c08_query_violation"] = (f"Get_normals_e_pg({g.elemType.name}, displacementMatrix = rigid rotation) differs from the rotated "
+                                                               f"normals of the undisplaced configuration by {err:.3e}")
 
         return query, np.eye(3), np.zeros(3)
     if name == "P":
@@ -446,6 +468,12 @@ def _build_domain(case):
         ex = {"measure": 1.0, "centroid": np.array([0.5, 0.5, 0.5]), "bmeasure": 6.0, "dim": 3}
     else:
         raise KeyError(src)
+    sc = case.get("scale")
+    if sc:
+        # the same body described in another unit of length (micro-structure in metres): coordinates x sc through the public setter
+        mesh.coord = np.asarray(mesh.coord, dtype=float) * sc
+        d_ = ex["dim"]
+        ex = {"measure": ex["measure"] * sc ** d_, "centroid": ex["centroid"] * sc, "bmeasure": ex["bmeasure"] * sc ** (d_ - 1), "dim": d_}
     return mesh, ex
 
 
@@ -664,6 +692,11 @@ def _run_motion(case):
         key = dict(key0, hist=prefix, mirrored=bool(mirrored))
         if regime == "end":
             key["regime"] = "end"
+        if i > 0 and step == "Q":
+            msg = mesh.__dict__.pop("_c08_query_violation", None)
+            if msg is not None and ("displaced_normals", prefix) not in seen:
+                seen.add(("displaced_normals", prefix))
+                viols.append(viol("displaced_normals", f"[{case['src']}/{case['poly']}/{case['elemType']} after '{step}' of '{prefix}'] {msg}", **key))
         if i > 0 and step == "P" and dom != "emb":
             for x in _check_locate(mesh, ex["dim"], key, f"[{case['src']}/{case['poly']}/{case['elemType']} after '{step}' of '{prefix}']"):
                 if (x["check"], prefix) not in seen:
